@@ -12,6 +12,7 @@ from .. import fam as F
 from .. import canon as C
 from .. import slot
 from ..report import Reporter
+from ..kkey import UH
 
 LEVEL = 'exploration'
 RULE = ('for every ordered pair (A, B) of subsets of the key universe, every pair of operand kinds '
@@ -45,7 +46,7 @@ def jobs(tier):
     n = 4 if tier == 'quick' else 5
     for fam in F.FAMILIES:
         for impl in F.IMPLS:
-            for variant in ('centred', 'extreme') + (('none',) if fam[0] == 'O' else ()):
+            for variant in ('centred', 'extreme') + (('none', 'unhash') if fam[0] == 'O' else ()):
                 js.append({'fn': 'job', 'weight': (10 if impl == 'py' else 2) * (1 if variant == 'extreme' else 3),
                            'group': impl,
                            'args': dict(fam=fam, impl=impl, n=n if variant == 'centred' else 3,
@@ -128,10 +129,13 @@ def describe(r):
 
 
 def run(fn):
+    UH.locked = True        # unhashable keys are really unhashable inside the implementation
     try:
         return ('ok', fn())
     except Exception as e:      # noqa
         return ('exc', type(e).__name__)
+    finally:
+        UH.locked = False
 
 
 def job(fam, impl, n, variant):
@@ -148,7 +152,7 @@ def job(fam, impl, n, variant):
     sample = None
     subsets = [tuple(k for k, c in zip(keys, combo) if c)
                for combo in itertools.product((False, True), repeat=len(keys))]
-    if variant == 'centred':
+    if variant in ('centred', 'unhash'):
         forms = FORMS
     elif variant == 'none':     # None next to ints cannot be sorted in a plain list
         forms = CONTAINER_FORMS + ['None']
